@@ -337,7 +337,11 @@ class G:
             return "(%s in names(r))" % self.pick(["'sel/rec'", "'other/type'", "'x'"])
         if k == "type":
             self.use("Type")
-            t = self.pick(["string", "varint", "uri.filename", "uri.hostname", "stringlist", "filesize", "float"])
+            t = self.pick(["string", "varint", "uri.filename", "uri.hostname", "stringlist", "filesize", "float",
+                           "net.ipaddress"])
+            if t == "net.ipaddress":
+                self.use("Type:dotted-path")
+                return "(Type.net.ipaddress %s %s)" % (self.pick(["==", "!="]), self.pick(["'10.0.0.1'", "'::1'", "'8.8.8.8'"]))
             if t in ("string",):
                 form = self.pick(["eq", "ne", "contains", "lt", "fieldlist"])
                 if form == "contains":
